@@ -73,6 +73,28 @@ impl<'de> Deserializer<'de> {
     }
 }
 
+/// Value of a big integer that fits an i64 (the wire format carries every integer outside the
+/// i32 range as a big integer, so 64-bit values come back in this form).
+fn bigint_to_i64(big: &erltf::types::BigInt) -> Option<i64> {
+    if big.digits.len() > 8 {
+        return None;
+    }
+    let mut bytes = [0u8; 8];
+    bytes[..big.digits.len()].copy_from_slice(&big.digits);
+    let magnitude = u64::from_le_bytes(bytes);
+    if big.sign.is_negative() {
+        if magnitude <= i64::MAX as u64 {
+            Some(-(magnitude as i64))
+        } else if magnitude == i64::MAX as u64 + 1 {
+            Some(i64::MIN)
+        } else {
+            None
+        }
+    } else {
+        i64::try_from(magnitude).ok()
+    }
+}
+
 impl<'de> SerdeDeserializer<'de> for &mut Deserializer<'de> {
     type Error = Error;
 
@@ -159,6 +181,9 @@ impl<'de> SerdeDeserializer<'de> for &mut Deserializer<'de> {
     fn deserialize_i64<V: Visitor<'de>>(self, visitor: V) -> Result<V::Value> {
         match self.term {
             OwnedTerm::Integer(i) => visitor.visit_i64(*i),
+            OwnedTerm::BigInt(big) => bigint_to_i64(big)
+                .ok_or_else(|| Error::InvalidValue("big integer out of range for i64".into()))
+                .and_then(|v| visitor.visit_i64(v)),
             _ => Err(Error::TypeMismatch {
                 expected: "integer".into(),
                 found: format!("{:?}", self.term),
@@ -194,6 +219,10 @@ impl<'de> SerdeDeserializer<'de> for &mut Deserializer<'de> {
         match self.term {
             OwnedTerm::Integer(i) => u32::try_from(*i)
                 .map_err(|_| Error::InvalidValue(format!("integer {} out of range for u32", i)))
+                .and_then(|v| visitor.visit_u32(v)),
+            OwnedTerm::BigInt(big) => bigint_to_i64(big)
+                .and_then(|i| u32::try_from(i).ok())
+                .ok_or_else(|| Error::InvalidValue("big integer out of range for u32".into()))
                 .and_then(|v| visitor.visit_u32(v)),
             _ => Err(Error::TypeMismatch {
                 expected: "integer".into(),
@@ -243,6 +272,17 @@ impl<'de> SerdeDeserializer<'de> for &mut Deserializer<'de> {
     fn deserialize_char<V: Visitor<'de>>(self, visitor: V) -> Result<V::Value> {
         match self.term {
             OwnedTerm::String(s) => {
+                let mut chars = s.chars();
+                if let Some(c) = chars.next()
+                    && chars.next().is_none()
+                {
+                    return visitor.visit_char(c);
+                }
+                Err(Error::InvalidValue("expected single char".into()))
+            }
+            // strings travel as binaries on the wire
+            OwnedTerm::Binary(b) => {
+                let s = str::from_utf8(b).map_err(|e| Error::InvalidValue(e.to_string()))?;
                 let mut chars = s.chars();
                 if let Some(c) = chars.next()
                     && chars.next().is_none()
